@@ -129,6 +129,24 @@ func RunOracle(exe string, input []byte) ([]string, error) {
 	return strings.Split(s, "\n"), nil
 }
 
+// GoRun builds and runs the main package in dir natively (offline), with a timeout in seconds.
+func GoRun(dir string, timeoutS int, args ...string) (string, error) {
+	env := append(os.Environ(), "GOFLAGS=-mod=mod", "GOPROXY=off", "GOSUMDB=off", "GOTOOLCHAIN=local", "GOWORK=off")
+	bin := filepath.Join(dir, "prog.bin")
+	b := exec.Command("go", "build", "-o", bin, ".")
+	b.Dir = dir
+	b.Env = env
+	if out, err := b.CombinedOutput(); err != nil {
+		return string(out), fmt.Errorf("go build: %v", err)
+	}
+	c := exec.Command("timeout", fmt.Sprint(timeoutS), bin)
+	c.Args = append(c.Args, args...)
+	c.Dir = dir
+	c.Env = env
+	out, err := c.CombinedOutput()
+	return string(out), err
+}
+
 // ---------------------------------------------------------------------------------------------
 // Findings
 
